@@ -125,7 +125,7 @@ func casePodReqs(c *kit.Ctx, r *kit.Rand, w *sk.World) {
 		c.Count("A.podreqs.deprecated-keys")
 	}
 	all := r.Bool()
-	d := sk.DumpPod(p)
+	d := normKeys(sk.DumpPod(p))
 	q := p.DeepCopy()
 	var rs scheduling.Requirements
 	if all {
@@ -234,8 +234,37 @@ func podData(p *corev1.Pod, all bool) *psched.PodData {
 // karpenter's own PodData.Requests (input of CanAdd) replaces the k8s-computed requests in the unit cases; the volume
 // inputs of CanAdd (GetVolumes, VolumeTopology.GetRequirements) are taken from the real functions as well
 func dumpPodK(p *corev1.Pod) sk.PodDump {
-	d := sk.DumpPod(p)
+	d := normKeys(sk.DumpPod(p))
 	d.Requests = sk.Milli(resources.RequestsForPods(p))
+	return d
+}
+
+// normKeys applies v1.NormalizedLabels to the label keys of the pod handed to the MODEL (the model works on
+// normalised keys; the real code receives the pod with its deprecated keys and normalises itself).
+func normKeys(d sk.PodDump) sk.PodDump {
+	sel := [][2]string{}
+	for _, kv := range d.Sel {
+		sel = append(sel, [2]string{nk(kv[0]), kv[1]})
+	}
+	d.Sel = sel
+	fix := func(t sk.Term) sk.Term {
+		out := sk.Term{}
+		for _, x := range t {
+			x.Key = nk(x.Key)
+			out = append(out, x)
+		}
+		return out
+	}
+	req := []sk.Term{}
+	for _, t := range d.Req {
+		req = append(req, fix(t))
+	}
+	d.Req = req
+	pref := []sk.WTerm{}
+	for _, w := range d.Pref {
+		pref = append(pref, sk.WTerm{Weight: w.Weight, Term: fix(w.Term)})
+	}
+	d.Pref = pref
 	return d
 }
 
@@ -492,7 +521,7 @@ func caseNC(c *kit.Ctx, r *kit.Rand) {
 			obs = fmt.Sprintf("(NOk %s %s %s)", gReqs(sk.DumpReqs(reqs)), gss(names(its)), gRL(sk.Milli(nc.Spec.Resources.Requests)))
 			jr = map[string]interface{}{"requirements": sk.DumpReqs(reqs), "instanceTypes": names(its), "requests": sk.Milli(nc.Spec.Resources.Requests)}
 		}
-		steps = append(steps, fmt.Sprintf("(%s, %s, %s)", gPod(d), kit.GBool(relax), obs))
+		steps = append(steps, fmt.Sprintf("(%s, %s, %s)", gVPod(d), kit.GBool(relax), obs))
 		js = append(js, stepJ{Pod: d, Relax: relax, Result: jr})
 	}
 	c.Count(fmt.Sprintf("A.nc.pods-on-claim=%d", okCount))
@@ -623,7 +652,7 @@ func caseEX(c *kit.Ctx, r *kit.Rand) {
 	for k, v := range vlim {
 		limits[k] = int64(v)
 	}
-	n0 := fmt.Sprintf("(mkEN %s %s %s %s [] %s %s)", kit.GListOf(sk.DumpTaints(en.VerifC01Taints()), gTaint), gReqs(sk.DumpReqs(en.VerifC01Requirements())), gRL(rem0), gUsage(dumpUsage(sn.HostPortUsage())),
+	n0 := fmt.Sprintf("(mkVEN (mkEN %s %s %s %s []) %s %s)", kit.GListOf(sk.DumpTaints(en.VerifC01Taints()), gTaint), gReqs(sk.DumpReqs(en.VerifC01Requirements())), gRL(rem0), gUsage(dumpUsage(sn.HostPortUsage())),
 		kit.GListOf(usedVols, func(p [2]string) string { return kit.GPair(gs(p[0]), gs(p[1])) }), gLimits(limits))
 	var steps []string
 	var js []interface{}
@@ -656,7 +685,7 @@ func caseEX(c *kit.Ctx, r *kit.Rand) {
 			obs = fmt.Sprintf("(EOk %s %s)", gReqs(sk.DumpReqs(reqs)), gRL(sk.Milli(en.VerifC01Remaining())))
 			js = append(js, map[string]interface{}{"pod": d, "requirements": sk.DumpReqs(reqs), "remaining": sk.Milli(en.VerifC01Remaining())})
 		}
-		steps = append(steps, fmt.Sprintf("(%s, %s)", gPod(d), obs))
+		steps = append(steps, fmt.Sprintf("(%s, %s)", gVPod(d), obs))
 	}
 	c.Count(fmt.Sprintf("A.ex.pods-on-node=%d", okCount))
 	c.AddCase(fmt.Sprintf("(CEX %s %s %s)", kit.GBool(all), n0, kit.GList(steps)),
